@@ -116,6 +116,8 @@ GroupRecMism(e) ==
 ArpMism(e) ==
   LET b == e.bytes IN
   IF e.ok # 1 THEN {"arp.rejected"} ELSE
+  \* the slice of the packet ends with the target protocol address (RFC 826: 8 + 2 * hln + 2 * pln bytes), whatever follows
+  (IF e.srg # <<0, 8 + 2 * b[5] + 2 * b[6]>> THEN {"arp.slice_range"} ELSE {}) \cup
   LET errs == ArpEthIpv4Errs(b[1] * 256 + b[2], b[3] * 256 + b[4], b[5], b[6]) IN
   IF errs = {} THEN (IF e.view # "ok" THEN {"arp.view_rejected:" \o e.view}
                      ELSE (IF e.f # <<b[7] * 256 + b[8]>> \o Sub(b, 8, 20) THEN {"arp.view_fields"} ELSE {}) \cup (IF e.back # 1 THEN {"arp.view_back_conversion"} ELSE {}))
